@@ -1,11 +1,262 @@
 package main
 
-import "golang.org/x/tools/go/ssa"
+import (
+	"go/types"
+
+	"golang.org/x/tools/go/ssa"
+)
+
+// Ideal signature scheme and abstract key material (DESIGN.md §3.2):
+// jws.Sign(k, alg, P) yields the atom σ(k, alg, P); jws.Verify succeeds iff
+// the presented value is such an atom made with one of the offered keys (same
+// key-pair identity, same algorithm) over an equal payload (data-model
+// equality). A value not produced by Sign never verifies.
+
+// AbsSigner is an abstract crypto.Signer that also has Algorithm() (ES256).
+type AbsSigner struct{ id int }
+
+// AbsIter iterates an abstract key set.
+type AbsIter struct {
+	set *AbsSet
+	pos int
+}
+
+// OptVal is a jws option.
+type OptVal struct {
+	kind string // "key", "payload", "compact", "keyset"
+	alg  IfaceVal
+	key  IfaceVal
+	tree JVal
+}
+
+const jwsPath = "github.com/lestrrat-go/jwx/v2/jws"
+
+func (e *Engine) opaqueIface(v Value) IfaceVal {
+	slot := new(Value)
+	*slot = v
+	return IfaceVal{typ: e.sh.marks.opaque, val: PtrVal{slot}}
+}
+
+func opaqueObj(v Value) (Value, bool) {
+	iv, ok := v.(IfaceVal)
+	if !ok {
+		return nil, false
+	}
+	p, ok := iv.val.(PtrVal)
+	if !ok || p.slot == nil {
+		return nil, false
+	}
+	return *p.slot, true
+}
+
+func (e *Engine) algName(alg IfaceVal) StrVal {
+	if s, ok := alg.val.(StrVal); ok {
+		return s
+	}
+	unsupported("algorithm value of type %v", alg.typ)
+	return StrVal{}
+}
+
+func (e *Engine) keyIdentity(k IfaceVal) (id int, alg *StrVal) {
+	obj, ok := opaqueObj(k)
+	if !ok {
+		unsupported("jws key of type %v", k.typ)
+	}
+	switch o := obj.(type) {
+	case *AbsKey:
+		return o.id, &o.algName
+	case *AbsSigner:
+		return o.id, nil
+	}
+	unsupported("jws key object %T", obj)
+	return 0, nil
+}
 
 func (e *Engine) sigIntrinsic(fn *ssa.Function, full string, args []Value) (Value, bool) {
+	switch full {
+	case "(github.com/lestrrat-go/jwx/v2/jwa.SignatureAlgorithm).String",
+		"(github.com/lestrrat-go/jwx/v2/jwa.KeyEncryptionAlgorithm).String",
+		"(github.com/lestrrat-go/jwx/v2/jwa.InvalidKeyAlgorithm).String",
+		"(github.com/lestrrat-go/jwx/v2/jwa.KeyType).String":
+		return args[0], true
+	case "crypto/x509.MarshalPKIXPublicKey":
+		return TupleVal{JBytes{JNull{}}, IfaceVal{}}, true
+	case "crypto/sha256.Sum256":
+		av := &ArrayVal{elems: make([]Value, 32)}
+		for i := range av.elems {
+			av.elems[i] = mkInt(0)
+		}
+		return av, true
+	case jwsPath + ".WithKey":
+		return e.opaqueIface(&OptVal{kind: "key", alg: args[0].(IfaceVal), key: args[1].(IfaceVal)}), true
+	case jwsPath + ".WithDetachedPayload":
+		return e.opaqueIface(&OptVal{kind: "payload", tree: e.bytesToJ(args[0])}), true
+	case jwsPath + ".WithCompact":
+		return e.opaqueIface(&OptVal{kind: "compact"}), true
+	case jwsPath + ".WithKeySet":
+		return e.opaqueIface(&OptVal{kind: "keyset", key: args[0].(IfaceVal)}), true
+	case jwsPath + ".Sign":
+		var key, payload *OptVal
+		for _, o := range variadic(args[1]) {
+			if ov, ok := opaqueObj(o); ok {
+				if opt, ok := ov.(*OptVal); ok {
+					switch opt.kind {
+					case "key":
+						key = opt
+					case "payload":
+						payload = opt
+					}
+				}
+			}
+		}
+		if key == nil || payload == nil {
+			unsupported("jws.Sign without key or detached payload")
+		}
+		id, _ := e.keyIdentity(key.key)
+		atom := &Atom{kind: "sig", key: mkInt(int64(id)), alg: e.algName(key.alg), tree: payload.tree}
+		return TupleVal{SigBytes{atom: atom}, IfaceVal{}}, true
+	case jwsPath + ".Verify":
+		sig, isSig := args[0].(SigBytes)
+		var payload *OptVal
+		var keys []*OptVal
+		for _, o := range variadic(args[1]) {
+			if ov, ok := opaqueObj(o); ok {
+				if opt, ok := ov.(*OptVal); ok {
+					switch opt.kind {
+					case "key", "keyset":
+						keys = append(keys, opt)
+					case "payload":
+						payload = opt
+					}
+				}
+			}
+		}
+		fail := TupleVal{SliceVal{}, e.newError(mkStr("jws: could not verify message"))}
+		if !isSig || sig.atom == nil || sig.atom.kind != "sig" || payload == nil {
+			return fail, true // not a value produced by Sign
+		}
+		okKey := false
+		for _, k := range keys {
+			if k.kind == "key" {
+				id, _ := e.keyIdentity(k.key)
+				if sig.atom.key.iv == int64(id) && e.decide(strEq(sig.atom.alg, e.algName(k.alg))) {
+					okKey = true
+				}
+				continue
+			}
+			setObj, _ := opaqueObj(k.key)
+			set, ok := setObj.(*AbsSet)
+			if !ok {
+				unsupported("jws.WithKeySet of %T", setObj)
+			}
+			for _, sk := range set.keys {
+				id, alg := e.keyIdentity(sk)
+				if sig.atom.key.iv != int64(id) || alg == nil {
+					continue
+				}
+				ak, _ := opaqueObj(sk)
+				if !e.decide(ak.(*AbsKey).hasAlg) {
+					continue
+				}
+				if e.decide(strEq(sig.atom.alg, *alg)) {
+					okKey = true
+				}
+			}
+		}
+		if !okKey {
+			return fail, true
+		}
+		if !e.decide(jEq(sig.atom.tree, payload.tree)) {
+			return fail, true
+		}
+		return TupleVal{JBytes{payload.tree}, IfaceVal{}}, true
+	}
 	return nil, false
 }
 
 func (e *Engine) sigHarnessExtra(fn *ssa.Function, name string, args []Value) (Value, bool) {
+	switch name {
+	case "vpSigKey": // (alg string, id int) jwk.Key with that algorithm and identity
+		id := e.concretize(args[1].(*Term), 0, 64)
+		k := &AbsKey{valid: tTrue, hasAlg: tTrue, algKind: 0, algName: args[0].(StrVal), kty: mkStr("OKP"), kid: mkStr("k" + string(rune('0'+id))), id: id}
+		return e.opaqueIface(k), true
+	case "vpSigSigner": // (id int) crypto.Signer + Algorithm()=ES256
+		id := e.concretize(args[0].(*Term), 0, 64)
+		return e.opaqueIface(&AbsSigner{id: id}), true
+	case "vpKeySetOf":
+		s := &AbsSet{}
+		for _, k := range variadic(args[0]) {
+			s.keys = append(s.keys, k.(IfaceVal))
+		}
+		return e.opaqueIface(s), true
+	case "vpForgedSignature": // an arbitrary string that no Sign call produced
+		return e.opaqueStr(), true
+	}
+	return nil, false
+}
+
+// absImplements: which interfaces the abstract objects satisfy.
+func (e *Engine) absImplements(obj Value, it *types.Interface) bool {
+	has := func(names ...string) bool {
+		for i := 0; i < it.NumMethods(); i++ {
+			for _, n := range names {
+				if it.Method(i).Name() == n {
+					return true
+				}
+			}
+		}
+		return false
+	}
+	switch obj.(type) {
+	case *AbsKey:
+		return !has("Public", "Sign", "Len", "LookupKeyID", "Keys", "Next", "Pair")
+	case *AbsSigner:
+		for i := 0; i < it.NumMethods(); i++ {
+			switch it.Method(i).Name() {
+			case "Algorithm", "Public", "Sign":
+			default:
+				return false
+			}
+		}
+		return true
+	case *AbsSet:
+		return !has("Public", "Sign", "Algorithm", "KeyType", "Validate", "Next", "Pair")
+	}
+	return it.NumMethods() == 0
+}
+
+func (e *Engine) sigInvoke(obj Value, recv IfaceVal, method *types.Func, args []Value) (Value, bool) {
+	name := method.Name()
+	switch o := obj.(type) {
+	case *AbsSigner:
+		switch name {
+		case "Algorithm":
+			return IfaceVal{typ: e.libNamed(jwaPath, "SignatureAlgorithm"), val: mkStr("ES256")}, true
+		case "Public":
+			return e.opaqueIface(&AbsSigner{id: o.id}), true
+		}
+	case *AbsSet:
+		if name == "Keys" {
+			return e.opaqueIface(&AbsIter{set: o}), true
+		}
+	case *AbsIter:
+		switch name {
+		case "Next":
+			if o.pos < len(o.set.keys) {
+				o.pos++
+				return tTrue, true
+			}
+			return tFalse, true
+		case "Pair":
+			pt := method.Type().(*types.Signature).Results().At(0).Type() // *arrayiter.Pair
+			st := pt.Underlying().(*types.Pointer).Elem()
+			sv := zero(st).(*StructVal)
+			*structField(st, sv, "Index") = mkInt(int64(o.pos - 1))
+			*structField(st, sv, "Value") = o.set.keys[o.pos-1]
+			slot := new(Value)
+			*slot = sv
+			return PtrVal{slot}, true
+		}
+	}
 	return nil, false
 }
